@@ -1068,6 +1068,16 @@ func (e *Env) evalCall(n *Node) specVal {
 			// blkpos(b): how many transactions GetNextTx has handed out from block b
 			x := e.eval(args[0])
 			return specVal{t: sel(v.heap(e.st, v.ghostKey("blk.pos", "(Array Int Int)")), "(i.val "+x.t+")"), typ: tInt}
+		case "pushhash":
+			// pushhash(b): the 20-byte value a data push with blob b is compared by — the bytes
+			// themselves when there are 20 of them, RIPEMD160(SHA256(bytes)) otherwise
+			b := e.eval(args[0])
+			h20 := v.eng.lookupType(pkgBitcoin, "Hash20")
+			_, fromBlob := v.opaqueBlobFuns(h20, 20)
+			f := v.smt.declareFun("uf!hash160", []string{"Int"}, "Int")
+			blen := v.smt.declareFun("uf!blobLen", []string{"Int"}, "Int")
+			v.smt.axiom(fmt.Sprintf("(forall ((x Int)) (! (= (%s (%s x)) 20) :pattern ((%s x))))", blen, f, f))
+			return specVal{t: app(fromBlob, ite(eq(app(blen, b.t), "20"), b.t, app(f, b.t))), typ: h20}
 		case "nseed":
 			return specVal{t: v.heap(e.st, v.ghostKey("nseed", "Int")), typ: tInt}
 		case "clock":
@@ -1216,6 +1226,7 @@ var specUFs = map[string]specUF{
 	"ProofTx":       {"uf!proofTx", extType(pkgBitcoin, "Hash32")},
 	"ProofRoot":     {"uf!proofRoot", extType(pkgBitcoin, "Hash32")},
 	"BlockHeaderOf": {"uf!blockHeader", extType(pkgWire, "BlockHeader")},
+	"ContractAction": {"uf!ContractAction", basicType(types.Bool)},
 	"Relevant":      {"uf!Relevant", basicType(types.Bool)},
 	"KeyEq":         {"uf!PublicKeyEqual", basicType(types.Bool)},
 	"SigVerify":     {"uf!SigVerify", basicType(types.Bool)},
